@@ -340,6 +340,7 @@ def check(ctx):
         # no defaulting read at all: then the name is simply required everywhere, which is consistent (nothing to contradict)
         o.witness('no optional-attribute belief stated')
     o.sample({'beliefs': [f'{b[2].name}: {ast.unparse(b[3])}' for b in beliefs], 'direct_reads': [f'{f_.name}: {ast.unparse(x)}' for f_, x in viol]})
+    obs.append(dv.falsy_default_obligation(ctx, 'C12.8', ['Maintainer', '_WorkOrder'], 'capacities are the numbers given (a maintainer with capacity 0 starts nothing that needs capacity)'))
     return obs
 
 
